@@ -77,6 +77,7 @@ func (w *WatcherHub) DeleteWatcher(sub chan []*proto.Event, lock bool) {
 // Stream push events to watchers.
 func (w *WatcherHub) Stream(input chan []*proto.Event) {
 	for item := range input {
+		var slow []chan []*proto.Event
 		w.RLock()
 		for sub := range w.subs {
 			select {
@@ -86,10 +87,15 @@ func (w *WatcherHub) Stream(input chan []*proto.Event) {
 				klog.InfoS("drop slow consumer", "chan", sub, "bufSize", watchBuffer)
 				w.metricCli.EmitCounter("drop.slow.watcher", 1)
 				verifYield("hub.slow_subscriber")
-				go w.DeleteWatcher(sub, true)
+				slow = append(slow, sub)
 			}
 		}
 		w.RUnlock()
+		// A subscriber that missed this item must not be offered the next one: close and unregister it
+		// before the next item is taken, so that its stream ends at the gap instead of continuing past it.
+		for _, sub := range slow {
+			w.DeleteWatcher(sub, true)
+		}
 	}
 
 	w.Lock()
